@@ -191,7 +191,21 @@ func runPlanCase(c planCase, o planCheckOpts) *Violation {
 			for n := range want.Stored {
 				byDoc = append(byDoc, spec.B(want.Stored[n][0].Val))
 			}
-			if v := checkStoredSurface(prop, node.Seg, want, [][]spec.B{list, rev, byDoc}); v != nil {
+			// only ids that are present, each once, ascending and descending
+			var present []spec.B
+			seenID := map[string]bool{}
+			for _, id := range byDoc {
+				if !seenID[string(id)] {
+					seenID[string(id)] = true
+					present = append(present, id)
+				}
+			}
+			sort.Slice(present, func(i, j int) bool { return present[i] < present[j] })
+			presentRev := make([]spec.B, len(present))
+			for i := range present {
+				presentRev[len(present)-1-i] = present[i]
+			}
+			if v := checkStoredSurface(prop, node.Seg, want, [][]spec.B{list, rev, byDoc, present, presentRev}); v != nil {
 				v.Signature = "merge/" + zs + v.Signature
 				v.Message = tag + ": " + v.Message
 				return v
